@@ -1001,18 +1001,16 @@ func init() {
 
 		// x/text ISO-8859-1 codec
 		"(*golang.org/x/text/encoding/charmap.Charmap).NewEncoder": func(e *Exec, t *Thread, a []Value, g bool) (Value, bool) {
-			e.onlyLatin1(a[0])
-			return done(Ptr{Obj: e.newObj(nil, e.C.BVConst(8, 1))})
+			return done(e.newCodecObj(a[0]))
 		},
 		"(*golang.org/x/text/encoding/charmap.Charmap).NewDecoder": func(e *Exec, t *Thread, a []Value, g bool) (Value, bool) {
-			e.onlyLatin1(a[0])
-			return done(Ptr{Obj: e.newObj(nil, e.C.BVConst(8, 2))})
+			return done(e.newCodecObj(a[0]))
 		},
 		"(*golang.org/x/text/encoding.Encoder).Bytes": func(e *Exec, t *Thread, a []Value, g bool) (Value, bool) {
-			return done(e.latin1Encode(a[1].(Slice)))
+			return done(e.latin1Encode(e.codecOf(a[0]), a[1].(Slice)))
 		},
 		"(*golang.org/x/text/encoding.Decoder).Bytes": func(e *Exec, t *Thread, a []Value, g bool) (Value, bool) {
-			return done(e.latin1Decode(a[1].(Slice)))
+			return done(e.latin1Decode(e.codecOf(a[0]), a[1].(Slice)))
 		},
 
 		"internal/bytealg.IndexByteString": func(e *Exec, t *Thread, a []Value, g bool) (Value, bool) {
@@ -1162,14 +1160,6 @@ func (e *Exec) netPeerAddr(typ string) Ptr {
 	st.F[0] = Slice{Arr: ip, Len: 16, Cap: 16}
 	st.F[1] = e.C.BVConst(64, 3671)
 	return Ptr{Obj: e.newObj(ua, st)}
-}
-
-// onlyLatin1: the codec model is ISO 8859-1 (charmap.ISO8859_1 is represented by a nil placeholder);
-// any other character map is not modelled and must not silently pass as Latin-1.
-func (e *Exec) onlyLatin1(recv Value) {
-	if p, ok := recv.(Ptr); ok && p.Obj != nil {
-		e.unsupported("character map other than charmap.ISO8859_1 (%s) is not modelled", p.Obj.Name)
-	}
 }
 
 func netClose(e *Exec, t *Thread, a []Value, g bool) (Value, bool) {
@@ -1369,8 +1359,9 @@ func (e *Exec) indexByte(bs []*term.T, c *term.T) *term.T {
 	return r
 }
 
-// latin1Encode: input is UTF-8 bytes of a Go string; each rune <= 0xFF becomes one byte, otherwise error.
-func (e *Exec) latin1Encode(in Slice) Value {
+// latin1Encode: input is UTF-8 bytes of a Go string; each rune of the character map's repertoire
+// becomes one byte, any other is an error (ISO 8859-1: the runes up to 0xFF).
+func (e *Exec) latin1Encode(cd *codec, in Slice) Value {
 	var rs []*term.T
 	if in.Arr != nil && in.Arr.Lazy != nil {
 		rs = e.strRunes(in.Arr.Lazy)
@@ -1384,10 +1375,11 @@ func (e *Exec) latin1Encode(in Slice) Value {
 	out := make([]*term.T, 0, len(rs))
 	for _, r := range rs {
 		// x/text replaces nothing: runes beyond the repertoire are an error (incl. U+FFFD from invalid UTF-8)
-		if !e.Branch(e.C.Cmp(term.OpULt, r, e.C.BVConst(32, 0x100)), "latin1") {
+		ok, b := cd.encodeRune(e, r)
+		if !e.Branch(ok, "latin1") {
 			return Tuple{Slice{}, e.opaqueError("encoding: rune not supported by encoding")}
 		}
-		out = append(out, e.C.Extract(r, 7, 0))
+		out = append(out, b)
 	}
 	obj := e.newArrayObj(types.Typ[types.Uint8], len(out))
 	for i, b := range out {
@@ -1396,11 +1388,11 @@ func (e *Exec) latin1Encode(in Slice) Value {
 	return Tuple{Slice{Arr: obj, Len: len(out), Cap: len(out)}, Iface{}}
 }
 
-// latin1Decode: every byte b becomes rune b, UTF-8 encoded.
-func (e *Exec) latin1Decode(in Slice) Value {
+// latin1Decode: every byte becomes the rune the character map assigns to it (ISO 8859-1: rune b), UTF-8 encoded.
+func (e *Exec) latin1Decode(cd *codec, in Slice) Value {
 	rs := make([]*term.T, in.Len)
 	for i := range rs {
-		rs[i] = e.C.ZExt(e.sliceElem(in, i).(*term.T), 32)
+		rs[i] = cd.decodeRune(e, e.sliceElem(in, i).(*term.T))
 	}
 	str := &Str{R: rs, Runes: true}
 	if !e.allASCII(str) {
